@@ -1,1 +1,290 @@
-/-! # C02 — property theorems (stub: not built yet) -/
+import KM.Lemmas.CertFields
+import KM.Gen.C02
+/-! # C02 — issued certificates bind the authenticated user to the submitted key only
+
+Property theorems only.  `handle` mirrors `certGenHandler` (who is authenticated, is it the user
+named in the URL) and the field construction of `lib/certgen`; `sshExtensions` mirrors
+`expandSSHExtensions` + the merge loop of `GenSSHCertFileString`; `publish` / `caList` mirror how
+the signers' public material gets into what `/public/sshca` and `/public/x509ca` serve.
+`KM.Gen.C02.src` carries the literals of the current source.  Parameters of every theorem: the
+password backend (`accepts`), `shell.Expand` with the handler's mapper (`expand user template`),
+the key type `K`.  Signature validity is cryptography: observed by the harness on every returned
+certificate, not proved. -/
+namespace KM.CertFields
+
+/-- the literals the property depends on -/
+def SrcOK (src : Src) : Prop :=
+  src.stdExt = fiveStandard ∧ src.skipEmptyKey = true ∧ src.certTypeIsUser = true ∧
+  src.principalsIsUser = true ∧ src.x509IsCA = false ∧ src.x509BC = true ∧
+  src.x509ClientAuth = true ∧ src.mismatchStatus = 403
+
+instance (src : Src) : Decidable (SrcOK src) := by unfold SrcOK; infer_instance
+
+/-- **Source table**: the current source builds SSH certificates with `CertType: ssh.UserCert`,
+`ValidPrincipals: []string{username}`, `Key: userKey` parsed from the submitted text, the five
+standard extensions (all with empty values) merged with `if key == "" { continue };
+extensions[key] = value`; X.509 templates with `IsCA: false`, `ExtKeyUsage: [ClientAuth]`,
+`CommonName: userName`, signed over `userPub`; `certGenHandler` answers 403 when
+`authData.Username != targetUser` and hands `targetUser` to both generators. -/
+theorem c02_src :
+    SrcOK KM.Gen.C02.src ∧
+    KM.Gen.C02.standardExtensions.map (·.2) = [[], [], [], [], []] ∧
+    KM.Gen.C02.mergeLoop = ["if key == \"\" { continue }".toList, "extensions[key] = value".toList] ∧
+    KM.Gen.C02.sshCertFields.lookup "Key" = some "userKey".toList ∧
+    KM.Gen.C02.sshCertFields.lookup "SignatureKey" = some "signer.PublicKey()".toList ∧
+    KM.Gen.C02.sshCertFields.lookup "KeyId" = some "keyIdentity".toList ∧
+    KM.Gen.C02.sshCertFields.lookup "Permissions" = some "ssh.Permissions{Extensions: extensions}".toList ∧
+    KM.Gen.C02.userKeyDef = ["ssh.ParseAuthorizedKey([]byte(userPubKey))".toList] ∧
+    KM.Gen.C02.keyIdentityDef = ["host_identity + \"_\" + username".toList] ∧
+    KM.Gen.C02.x509SubjectFields.lookup "CommonName" = some "userName".toList ∧
+    KM.Gen.C02.x509TemplateFields.lookup "Subject" = some "subject".toList ∧
+    KM.Gen.C02.x509CreateArgs = ["rand.Reader".toList, "&template".toList, "caCert".toList,
+      "userPub".toList, "caPriv".toList] ∧
+    KM.Gen.C02.targetUserDef = ["r.URL.Path[len(certgenPath):]".toList, "authData.Username".toList] ∧
+    KM.Gen.C02.mismatchCond = "authData.Username != targetUser".toList ∧
+    KM.Gen.C02.sshHandlerArgs[2]? = some "targetUser".toList ∧
+    KM.Gen.C02.x509HandlerArgs[2]? = some "targetUser".toList ∧
+    KM.Gen.C02.sshGenArgs.take 4 = ["targetUser".toList, "userPubKey".toList, "signer".toList,
+      "state.HostIdentity".toList] ∧
+    KM.Gen.C02.sshGenArgs[5]? = some "extensions".toList ∧
+    KM.Gen.C02.x509GenArgs.take 4 = ["targetUser".toList, "userPub".toList, "caCert".toList,
+      "signer".toList] ∧
+    KM.Gen.C02.expandShape = ["case \"USERNAME\": return username".toList,
+      "range state.Config.Base.SSHCertConfig.Extensions".toList,
+      "key, err := shell.Expand(extension.Key, mapper)".toList, "if err != nil { return nil, err }".toList,
+      "value, err := shell.Expand(extension.Value, mapper)".toList, "if err != nil { return nil, err }".toList,
+      "userExtensions[key] = value".toList] := by
+  decide
+
+/-- **Extensions**: when every configured template expands, the map put into the certificate is —
+key by key — the value of the *last* configured entry whose expanded key is that key (entries whose
+key expands to the empty string are skipped; a configured key equal to a standard name overrides
+it), the empty string for the remaining standard names, and nothing else. -/
+theorem c02_extensions (names : List Str) (hn : [] ∉ names) (expand : Str → Option Str)
+    (cfg : List (Str × Str)) (m : SMap) (h : sshExtensions names true expand cfg = some m) (k : Str) :
+    m k = specExt names expand cfg k := by
+  unfold sshExtensions at h
+  split at h
+  · rename_i custom hc
+    simp only [Option.some.injEq] at h
+    subst h
+    have hl := expandAll_lookup expand cfg SMap.empty custom hc k
+    unfold mergeExt specExt stdMap
+    by_cases hk : k = []
+    · subst hk; simp [hn]
+    · simp only [Bool.true_and, beq_iff_eq, hk, if_false]
+      rw [hl]
+      cases lastConfigured expand k cfg <;> simp [SMap.empty]
+  · cases h
+
+/-- … and the expansion fails as a whole (HTTP 500, nothing issued) exactly when some configured
+key or value does not expand -/
+theorem c02_extensions_fail (names : List Str) (expand : Str → Option Str) (cfg : List (Str × Str)) :
+    (sshExtensions names true expand cfg).isSome =
+      cfg.all (fun e => (expand e.1).isSome && (expand e.2).isSome) := by
+  unfold sshExtensions
+  rw [← expandAll_isSome expand cfg SMap.empty]
+  cases expandAll expand cfg SMap.empty <;> rfl
+
+/-- **Published keys**: after `signerPublicKeyToKeymasterKeys` the list served by `/public/sshca`
+contains the primary signer's key, the Ed25519 signer's key when one is configured, and everything
+that was there before; after `loadSignersFromPemData` the list served by `/public/x509ca` ends
+with the primary signer's CA, which is the one `getSignerX509CAForPublic` signs under. -/
+theorem c02_published {K} [DecidableEq K] (known pre : List K) (ed : Option K) (signer : K) :
+    signer ∈ publish known ed signer ∧ (∀ e, ed = some e → e ∈ publish known ed signer) ∧
+    (∀ x ∈ known, x ∈ publish known ed signer) ∧
+    x509IssuerCA (caList pre ed signer) = some signer ∧ signer ∈ caList pre ed signer := by
+  cases ed with
+  | none =>
+    refine ⟨mem_addKey_self _ _, fun e h => (by cases h), fun x hx => mem_addKey_of_mem _ hx, ?_, ?_⟩
+    · simp [x509IssuerCA, caList]
+    · simp [caList]
+  | some e =>
+    refine ⟨mem_addKey_self _ _, fun e' h => ?_, fun x hx => ?_, ?_, ?_⟩
+    · cases h; exact mem_addKey_of_mem _ (mem_addKey_self _ _)
+    · exact mem_addKey_of_mem _ (mem_addKey_of_mem _ hx)
+    · simp [x509IssuerCA, caList]
+    · simp [caList]
+
+/-- **SSH fields**: whenever the handler answers with an SSH certificate, some user `u` was
+authenticated, the URL named exactly `u`, and the certificate has `u` as its only principal, the
+submitted key as its key, user type, key id `<host>_<u>`, a signing key that is among the
+published ones, and the extension map of `c02_extensions` for `u`. -/
+theorem c02_ssh_fields {K} [DecidableEq K] (src : Src) (hsrc : SrcOK src) (cfg : Cfg) (st : St K)
+    (accepts : Str → Bool) (expand : Str → Str → Option Str) (cred : Cred) (urlUser : Str)
+    (ct : CType) (kind : KeyKind) (key : K) (c : SshCert K)
+    (h : handle src cfg st accepts expand cred urlUser ct kind key = .ssh c) :
+    ∃ u, authUser cfg.disableNorm accepts cred = some u ∧ urlUser = u ∧ ct = .ssh ∧
+      c.principals = [u] ∧ c.key = key ∧ c.userCert = true ∧
+      c.keyId = cfg.hostIdentity ++ '_' :: u ∧
+      c.signatureKey ∈ publish st.preKnown st.ed st.signer ∧
+      (kind = .ed25519 → st.ed = some c.signatureKey) ∧ (kind ≠ .ed25519 → c.signatureKey = st.signer) ∧
+      ∀ k, c.exts k = specExt fiveStandard (expand u) cfg.exts k := by
+  obtain ⟨h1, h2, h3, h4, _, _, _, _⟩ := hsrc
+  unfold handle at h
+  split at h
+  · cases h
+  · rename_i u hu
+    split at h
+    · cases h
+    · rename_i hne
+      have hurl : u = urlUser := Classical.not_not.mp hne
+      split at h
+      · split at h
+        · cases h
+        · split at h
+          · cases h
+          · rename_i sk hsk
+            split at h
+            · cases h
+            · rename_i m hm
+              simp only [Out.ssh.injEq] at h
+              subst h
+              have hpub := c02_published st.preKnown st.preCAs st.ed st.signer
+              have hempty : ([] : Str) ∉ fiveStandard := by decide
+              rw [h1, h2] at hm
+              refine ⟨u, hu, hurl.symm, rfl, rfl, rfl, h3, rfl, ?_, ?_, ?_,
+                fun k => c02_extensions fiveStandard hempty (expand u) cfg.exts m hm k⟩
+              · unfold sshSigner at hsk
+                split at hsk
+                · split at hsk
+                  · rename_i e he
+                    cases hsk
+                    exact hpub.2.1 _ he
+                  · cases hsk
+                · cases hsk; exact hpub.1
+              · intro hk
+                unfold sshSigner at hsk
+                simp only [hk, if_true] at hsk
+                split at hsk
+                · rename_i e he; cases hsk; exact he
+                · cases hsk
+              · intro hk
+                unfold sshSigner at hsk
+                simp only [hk, if_false] at hsk
+                cases hsk; rfl
+      · split at h <;> cases h
+
+/-- **X.509 fields**: whenever the handler answers with an X.509 certificate (plain or
+Kubernetes flavour), the authenticated user `u` equals the URL's user, `u` is the common name,
+the certified key is the submitted one, it is not a CA, basic constraints are marked valid,
+client authentication is its extended key usage, and it is issued under the primary signer's CA,
+which `/public/x509ca` serves. -/
+theorem c02_x509_fields {K} [DecidableEq K] (src : Src) (hsrc : SrcOK src) (cfg : Cfg) (st : St K)
+    (accepts : Str → Bool) (expand : Str → Str → Option Str) (cred : Cred) (urlUser : Str)
+    (ct : CType) (kind : KeyKind) (key : K) (c : X509Cert K)
+    (h : handle src cfg st accepts expand cred urlUser ct kind key = .x509 c) :
+    ∃ u, authUser cfg.disableNorm accepts cred = some u ∧ urlUser = u ∧ ct ≠ .ssh ∧
+      c.cn = u ∧ c.key = key ∧ c.isCA = false ∧ c.bcValid = true ∧ c.clientAuth = true ∧
+      c.issuer = st.signer ∧ c.issuer ∈ caList st.preCAs st.ed st.signer := by
+  obtain ⟨_, _, _, _, h5, h6, h7, _⟩ := hsrc
+  have hpub := c02_published st.preKnown st.preCAs st.ed st.signer
+  unfold handle at h
+  split at h
+  · cases h
+  · rename_i u hu
+    split at h
+    · cases h
+    · rename_i hne
+      have hurl : u = urlUser := Classical.not_not.mp hne
+      split at h
+      · split at h
+        · cases h
+        · split at h
+          · cases h
+          · split at h <;> cases h
+      · rename_i hct
+        split at h
+        · cases h
+        · rename_i ca hca
+          simp only [Out.x509.injEq] at h
+          subst h
+          rw [hpub.2.2.2.1] at hca
+          cases hca
+          exact ⟨u, hu, hurl.symm, fun hc => hct (by rw [hc]), rfl, rfl, h5, h6, h7, rfl, hpub.2.2.2.2⟩
+
+/-- **Other user**: a request authenticated as `u` that names any other user in the URL is refused
+with 403 — for every certificate type, key, configuration; and without a valid credential the
+answer is 401. -/
+theorem c02_other_user {K} (src : Src) (hsrc : SrcOK src) (cfg : Cfg) (st : St K)
+    (accepts : Str → Bool) (expand : Str → Str → Option Str) (cred : Cred) (urlUser : Str)
+    (ct : CType) (kind : KeyKind) (key : K) :
+    (∀ u, authUser cfg.disableNorm accepts cred = some u → u ≠ urlUser →
+      handle src cfg st accepts expand cred urlUser ct kind key = .status 403) ∧
+    (authUser cfg.disableNorm accepts cred = none →
+      handle src cfg st accepts expand cred urlUser ct kind key = .status 401) := by
+  constructor
+  · intro u hu hne
+    unfold handle
+    rw [hu]
+    simp [hne, hsrc.2.2.2.2.2.2.2]
+  · intro hn
+    unfold handle
+    rw [hn]
+
+theorem ofNat_toNat (n : Nat) (h : n < 0xd800) : (Char.ofNat n).toNat = n := by
+  have hv : n.isValidChar := Or.inl h
+  unfold Char.ofNat
+  rw [dif_pos hv]
+  unfold Char.ofNatAux Char.toNat
+  simp
+
+theorem lowerChar_not_upper (c : Char) : ¬ ('A' ≤ lowerChar c ∧ lowerChar c ≤ 'Z') := by
+  unfold lowerChar
+  split
+  · rename_i h
+    intro hc
+    have h1 : 65 ≤ c.toNat := h.1
+    have h2 : c.toNat ≤ 90 := h.2
+    have hv : (Char.ofNat (c.toNat + 32)).toNat = c.toNat + 32 := ofNat_toNat _ (by omega)
+    have h3 : (Char.ofNat (c.toNat + 32)).toNat ≤ 90 := hc.2
+    omega
+  · rename_i h; exact h
+
+/-- **Normalised user**: the name a password credential authenticates is the normalised typed
+name — with normalisation enabled it contains no upper-case ASCII letter, so a URL naming a
+case variant is a different user (`c02_other_user`) — and the login handler's cookie carries that
+same name, so cookie and basic credentials of one person yield the same principal. -/
+theorem c02_normalised (dn : Bool) (accepts : Str → Bool) (typed : Str) (pw : Bool) (u : Str)
+    (h : authUser dn accepts (.basic typed pw) = some u) :
+    u = normalise dn typed ∧ accepts u = true ∧ pw = true ∧
+    authUser dn accepts (loginCookie dn accepts typed pw) = some u ∧
+    (dn = false → ∀ c ∈ u, ¬ ('A' ≤ c ∧ c ≤ 'Z')) := by
+  simp only [authUser] at h
+  split at h
+  · rename_i hc
+    simp only [Bool.and_eq_true] at hc
+    simp only [Option.some.injEq] at h
+    subst h
+    refine ⟨rfl, hc.2, hc.1, ?_, ?_⟩
+    · simp [loginCookie, hc.1, hc.2, authUser]
+    · intro hdn c hcm
+      subst hdn
+      simp only [normalise, Bool.false_eq_true, if_false, List.mem_map] at hcm
+      obtain ⟨a, _, ha⟩ := hcm
+      rw [← ha]
+      exact lowerChar_not_upper a
+  · cases h
+
+/-- non-vacuity: with the repository's literals, `Alice` logging in by password and asking for
+`/certgen/alice` gets an SSH certificate whose only principal is `alice`, while `/certgen/Alice`
+is refused; an override of a standard extension is visible in the result -/
+def exampleSt : St Nat := { signer := 1, ed := none, preKnown := [], preCAs := [] }
+def exampleCfg : Cfg :=
+  { disableNorm := false, hostIdentity := "km".toList, exts := [("permit-pty".toList, "$USERNAME".toList)] }
+def exampleCert (url : Str) : Option ((List Str × Nat × Nat) × (Option Str × Option Str)) :=
+  match handle KM.Gen.C02.src exampleCfg exampleSt (fun _ => true) (fun u t => expandStr u t)
+      (.basic "Alice".toList true) url .ssh .rsa2048 7 with
+  | .ssh c => some ((c.principals, c.key, c.signatureKey), (c.exts "permit-pty".toList,
+      c.exts "permit-user-rc".toList))
+  | _ => none
+def exampleStatus (url : Str) : Option Nat :=
+  match handle KM.Gen.C02.src exampleCfg exampleSt (fun _ => true) (fun u t => expandStr u t)
+      (.basic "Alice".toList true) url .ssh .rsa2048 7 with
+  | .status n => some n
+  | _ => none
+example : exampleCert "alice".toList =
+    some ((["alice".toList], 7, 1), (some "alice".toList, some [])) := by decide
+example : exampleStatus "Alice".toList = some 403 := by decide
+
+end KM.CertFields
